@@ -141,6 +141,32 @@ class P(Prop):
                 self.fail("search", "mux-wrong", f"mux({w}): data={data:b} sel={sel} gave {v['out']}", case)
                 return
 
+    def check_mux_wide(self, w):
+        """widths past a digit boundary of the select-line count (w = 1025 needs sel_10): pairing the product terms with the
+        select lines by name order instead of by index would go wrong exactly there"""
+        case = {"fn": "mux", "w": w, "wide": True}
+        c = cg.logic.mux(w)
+        k = cg.utils.clog2(w)
+        if set(c.inputs()) != {f"in_{i}" for i in range(w)} | {f"sel_{i}" for i in range(k)} or c.outputs() != {"out"}:
+            self.fail("search", "mux-io", f"mux({w}): unexpected interface", case)
+            return
+        rng = self.rng
+        sels = sorted({x for x in [0, 1, 2, 4, 9, 10, 11, 100, 512, 1023, 1024, w - 1, w, 2 ** k - 1] if x < 2 ** k}) + \
+            [rng.randrange(2 ** k) for _ in range(12)]
+        for sel in sels:
+            for polarity in (True, False):
+                # only in_sel carries `polarity`, every other data line the opposite
+                asg = {f"in_{i}": (not polarity) for i in range(w)}
+                if sel < w:
+                    asg[f"in_{sel}"] = polarity
+                asg.update({f"sel_{i}": bool((sel >> i) & 1) for i in range(k)})
+                v = simulate(c, asg)
+                self.search_cases += 1
+                want = polarity if sel < w else False
+                if v["out"] != want:
+                    self.fail("search", "mux-wrong", f"mux({w}): sel={sel}, in_sel={polarity}, others={not polarity} gave {v['out']}", case)
+                    return
+
     def check_popcount(self, w):
         case = {"fn": "popcount", "w": w}
         c = cg.logic.popcount(w)
@@ -182,6 +208,8 @@ class P(Prop):
             if w <= 24:
                 self.check_mux(w)
             self.check_popcount(w)
+        for w in (129, 1025):
+            self.check_mux_wide(w)
         # call history: a circuit obtained earlier and edited by the caller must not leak into later calls
         gen.poison_generators(self.rng)
         self.stats.bump("history:poisoned-generator-results")
